@@ -170,6 +170,114 @@ def _callee(e):
     return ast.unparse(e.func).split('.')[-1] if isinstance(e, ast.Call) else None
 
 
+# ---- value-transparent conversions (dtype casts): the theorems are about VALUES, so `x.astype(..)`, `np.asarray(x, ..)` and calls of
+# module-level cast helpers (functions that return their first argument, possibly converted) are looked through; whether the
+# arithmetic is done in FLOATING POINT is a separate, translated fact (psdArithmeticInFloatingPoint, brmsWorksInFloatingPoint)
+_CASTS = {}          # helper name -> does it convert non-floating input to a floating type?   (set by generate())
+_FLOATISH = ('float', 'np.float64', 'numpy.float64', 'np.double', 'np.float32', 'numpy.float32', 'config.precision', 'precision',
+             "'float64'", "'float32'", "'f8'", "'f4'", "'d'", 'np.longdouble', 'np.result_type(float,array)', 'np.result_type(array,float)')
+_ASARRAY = ('np.asarray', 'np.asanyarray', 'np.ascontiguousarray', 'np.asfortranarray', 'np.array',
+            'numpy.asarray', 'numpy.asanyarray', 'numpy.ascontiguousarray', 'numpy.asfortranarray', 'numpy.array')
+
+
+def _cast_info(e):
+    """is `e` (at its top) a value-transparent conversion?  -> (inner expression, converts to floating point: bool) or None"""
+    if not isinstance(e, ast.Call):
+        return None
+    f = e.func
+    kws = {k.arg: k.value for k in e.keywords if k.arg}
+    if isinstance(f, ast.Attribute) and f.attr == 'astype' and (e.args or 'dtype' in kws):
+        tgt = e.args[0] if e.args else kws['dtype']
+        return f.value, ast.unparse(tgt).replace(' ', '').replace('"', "'") in _FLOATISH
+    name = ast.unparse(f)
+    if name in _ASARRAY and e.args:
+        tgt = kws.get('dtype', e.args[1] if len(e.args) > 1 else None)
+        return e.args[0], tgt is not None and ast.unparse(tgt).replace(' ', '').replace('"', "'") in _FLOATISH
+    if isinstance(f, ast.Name) and f.id in _CASTS and e.args:
+        return e.args[0], _CASTS[f.id]
+    if isinstance(f, ast.Attribute) and f.attr == 'copy' and not e.args:
+        return None                # a copy is not a cast (aliasing matters elsewhere)
+    return None
+
+
+def _strip_casts(e):
+    import copy
+
+    class S(ast.NodeTransformer):
+        def visit_Call(self, node):
+            node = self.generic_visit(node)
+            ci = _cast_info(node)
+            return ci[0] if ci is not None else node
+    return S().visit(copy.deepcopy(e))
+
+
+_FLOAT_FUNCS = set()      # module-level functions every `return` of which passes a conversion to floating point (set by generate())
+
+
+def _floating_cast_on_top(e):
+    """does the value of `e` pass through a conversion to floating point (possibly under further transparent casts), or is it
+    the result of a module-level function all of whose returns do?"""
+    while True:
+        if isinstance(e, ast.Call) and isinstance(e.func, ast.Name) and e.func.id in _FLOAT_FUNCS:
+            return True
+        ci = _cast_info(e)
+        if ci is None:
+            return False
+        if ci[1]:
+            return True
+        e = ci[0]
+
+
+def _own_returns(fn):
+    """the values returned by `fn` itself (returns of nested functions / lambdas are not its returns)"""
+    out = []
+
+    def walk(n):
+        for ch in ast.iter_child_nodes(n):
+            if isinstance(ch, (ast.FunctionDef, ast.AsyncFunctionDef, ast.Lambda, ast.ClassDef)):
+                continue
+            if isinstance(ch, ast.Return) and ch.value is not None:
+                out.append(ch.value)
+            walk(ch)
+    walk(fn)
+    return out
+
+
+def _cast_helpers(mod):
+    """module-level functions that return their first argument, possibly converted: every `return` is the parameter under zero or
+    more transparent conversions.  floating = every converting return converts to a floating type, and a bare `return <param>`
+    (if any) sits in a function that tests the dtype"""
+    out = {}
+    for fn in mod.body:
+        if not (isinstance(fn, ast.FunctionDef) and fn.args.args and not fn.args.vararg):
+            continue
+        a = fn.args.args[0].arg
+        rets = _own_returns(fn)
+        if not rets:
+            continue
+        ok, conv, bare = True, [], 0
+        for r_ in rets:
+            e, fl, n = r_, False, 0
+            while True:
+                ci = _cast_info(e)
+                if ci is None:
+                    break
+                e, fl, n = ci[0], fl or ci[1], n + 1
+            if not (isinstance(e, ast.Name) and e.id == a):
+                ok = False
+                break
+            if n:
+                conv.append(fl)
+            else:
+                bare += 1
+        if not ok:
+            continue
+        tests_dtype = any(isinstance(n_, ast.Attribute) and n_.attr in ('dtype', 'kind') for n_ in ast.walk(fn)) \
+            or any(isinstance(n_, ast.Call) and _callee(n_) in ('issubdtype', 'isrealobj', 'iscomplexobj') for n_ in ast.walk(fn))
+        out[fn.name] = bool(conv) and all(conv) and (bare == 0 or tests_dtype)
+    return out
+
+
 def _power_of(e):
     """`abs(X)**2`, `abs(X)*abs(X)`, `X.real**2 + X.imag**2`, `(X*conj(X)).real` -> X; else None"""
     if isinstance(e, ast.BinOp) and isinstance(e.op, ast.Pow) and isinstance(e.right, ast.Constant) and e.right.value == 2 \
@@ -192,12 +300,25 @@ def _power_of(e):
 
 
 def _sumsq_of(e):
-    """`(W**2).sum()`, `(W*W).sum()`, `np.sum(W**2)`, `np.sum(W*W)` -> W; else None"""
+    """`(W**2).sum()`, `(W*W).sum()`, `np.sum(W**2)`, `np.sum(W*W)` (a `dtype=` keyword allowed), `np.vdot(W, W)`,
+    `np.dot(W.ravel(), W.ravel())`, `np.linalg.norm(W)**2` -> W; else None"""
     inner = None
-    if isinstance(e, ast.Call) and isinstance(e.func, ast.Attribute) and e.func.attr == 'sum' and not e.args and not e.keywords:
+    if isinstance(e, ast.Call) and isinstance(e.func, ast.Attribute) and e.func.attr == 'sum' and not e.args \
+            and all(k.arg == 'dtype' for k in e.keywords):
         inner = e.func.value
-    if isinstance(e, ast.Call) and ast.unparse(e.func) in ('np.sum', 'numpy.sum', 'sum') and len(e.args) == 1 and not e.keywords:
+    if isinstance(e, ast.Call) and ast.unparse(e.func) in ('np.sum', 'numpy.sum', 'sum') and len(e.args) == 1 \
+            and all(k.arg == 'dtype' for k in e.keywords):
         inner = e.args[0]
+    if isinstance(e, ast.Call) and ast.unparse(e.func) in ('np.vdot', 'numpy.vdot', 'np.dot', 'numpy.dot', 'np.inner') and len(e.args) == 2 \
+            and not e.keywords and _norm(e.args[0]) == _norm(e.args[1]):
+        a = e.args[0]
+        if isinstance(a, ast.Call) and isinstance(a.func, ast.Attribute) and a.func.attr in ('ravel', 'flatten') and not a.args:
+            return a.func.value
+        return a if ast.unparse(e.func).endswith('vdot') else None
+    if isinstance(e, ast.BinOp) and isinstance(e.op, ast.Pow) and isinstance(e.right, ast.Constant) and e.right.value == 2 \
+            and isinstance(e.left, ast.Call) and ast.unparse(e.left.func) in ('np.linalg.norm', 'numpy.linalg.norm') and len(e.left.args) == 1 \
+            and not e.left.keywords:
+        return e.left.args[0]
     if inner is None:
         return None
     if isinstance(inner, ast.BinOp) and isinstance(inner.op, ast.Pow) and isinstance(inner.right, ast.Constant) and inner.right.value == 2:
@@ -245,12 +366,9 @@ def _psd_analysis(fn):
     return r
 
 
-def _psd_analysis_(fn):
-    ssa = _SSA()
-    ssa.run(fn.body)
-    if not (isinstance(ssa.ret, ast.Tuple) and len(ssa.ret.elts) == 3):
-        raise Untranslatable('psd does not return a 3-tuple')
-    ux, uy, pw = ssa.ret.elts
+def _psd_parts(ret):
+    """structure of the returned 3-tuple -> dict(pre, post, power, Wt, Ws, D, ux, uy)"""
+    ux, uy, pw = ret.elts
     spectra, windows = [], []
 
     def mk_p(node, X):
@@ -275,13 +393,27 @@ def _psd_analysis_(fn):
     pre, D = _rot_call(inner.args[0])
     if not (isinstance(D, ast.BinOp) and isinstance(D.op, ast.Mult)):
         raise Untranslatable(f'transform input is {ast.unparse(D)[:40]}')
+    return {'pre': pre, 'post': post, 'power': pw2, 'D': D, 'Ws': windows[0] if windows else None, 'ux': ux, 'uy': uy}
+
+
+def _psd_analysis_(fn):
+    ssa = _SSA()
+    ssa.run(fn.body)
+    if not (isinstance(ssa.ret, ast.Tuple) and len(ssa.ret.elts) == 3):
+        raise Untranslatable('psd does not return a 3-tuple')
+    a = _psd_parts(_strip_casts(ssa.ret))            # VALUES: conversions looked through
+    D = a['D']
     if _norm(D.left) == 'height':
-        Wt = D.right
+        a['Wt'] = D.right
     elif _norm(D.right) == 'height':
-        Wt = D.left
+        a['Wt'] = D.left
     else:
         raise Untranslatable(f'transform input is {ast.unparse(D)[:40]}')
-    return {'pre': pre, 'post': post, 'power': pw2, 'Wt': Wt, 'Ws': windows[0] if windows else None, 'ux': ux, 'uy': uy}
+    try:
+        a['raw'] = _psd_parts(ssa.ret)                # the same with the conversions left in (for the floating-point fact)
+    except Untranslatable:
+        a['raw'] = None
+    return a
 
 
 def _axis_call(e):
@@ -327,23 +459,62 @@ class _Points:
         self.centre_elt = None
 
     def index_of(self, e):
+        """an index expression of the 2-D branch -> [offset along axis 0, offset along axis 1] relative to the centre sample.
+        Tuple ARITHMETIC is evaluated symbolically: literals `(c[0] - 1, c[1])`, slices `c[1:]`, `c[:1]`, concatenation `a + b`,
+        `tuple(..)` / `list(..)`; every component is `centre[k] + const`"""
+        t = self._tuple(e)
+        if len(t) != 2 or [k for k, _ in t] != [0, 1]:
+            raise Untranslatable(f'index expression {ast.unparse(e)[:50]} does not address (axis 0, axis 1)')
+        return [o for _, o in t]
+
+    def _tuple(self, e):
         if isinstance(e, ast.Name) and e.id in self.idx:
-            return list(self.idx[e.id])
-        if isinstance(e, ast.Call) and ast.unparse(e.func) in ('tuple', 'list') and len(e.args) == 1:
-            return self.index_of(e.args[0])
+            return [(k, o) for k, o in enumerate(self.idx[e.id])]
+        if isinstance(e, ast.Call) and ast.unparse(e.func) in ('tuple', 'list') and len(e.args) == 1 \
+                and not isinstance(e.args[0], (ast.GeneratorExp, ast.ListComp)):
+            return self._tuple(e.args[0])
         elt, var = _centre_expr(e)
         if elt is not None:
             if self.centre_elt is None:
                 self.centre_elt = (elt, var)
             elif ast.unparse(elt) != ast.unparse(self.centre_elt[0]):
                 raise Untranslatable('two different centre expressions')
-            return [0, 0]
-        if isinstance(e, ast.Tuple) and len(e.elts) == 2:      # (c[0] - 1, c[1])
-            out = []
-            for k, el in enumerate(e.elts):
-                out.append(self._component(el, k))
-            return out
+            return [(0, 0), (1, 0)]
+        if isinstance(e, (ast.Tuple, ast.List)):
+            return [self._elem(el) for el in e.elts]
+        if isinstance(e, ast.BinOp) and isinstance(e.op, ast.Add):
+            return self._tuple(e.left) + self._tuple(e.right)
+        if isinstance(e, ast.Subscript) and isinstance(e.slice, ast.Slice) and e.slice.step is None:
+            def bound(b):
+                if b is None:
+                    return None
+                if isinstance(b, ast.Constant) and isinstance(b.value, int):
+                    return b.value
+                if isinstance(b, ast.UnaryOp) and isinstance(b.op, ast.USub) and isinstance(b.operand, ast.Constant):
+                    return -b.operand.value
+                raise Untranslatable(f'slice bound {ast.unparse(b)}')
+            return self._tuple(e.value)[bound(e.slice.lower):bound(e.slice.upper)]
         raise Untranslatable(f'index expression {ast.unparse(e)[:50]}')
+
+    def _elem(self, el):
+        """`X[k]`, `X[k] - 1`, `X[k] + 1`, `1 + X[k]` -> (axis k, offset)"""
+        def base(b):
+            if isinstance(b, ast.Subscript) and not isinstance(b.slice, ast.Slice):
+                t = self._tuple(b.value)
+                k = b.slice
+                if isinstance(k, ast.UnaryOp) and isinstance(k.op, ast.USub) and isinstance(k.operand, ast.Constant):
+                    k = ast.Constant(value=-k.operand.value)
+                if isinstance(k, ast.Constant) and isinstance(k.value, int) and -len(t) <= k.value < len(t):
+                    return t[k.value]
+            raise Untranslatable(f'index component {ast.unparse(el)[:40]}')
+        if isinstance(el, ast.BinOp) and isinstance(el.op, (ast.Sub, ast.Add)):
+            if isinstance(el.right, ast.Constant) and isinstance(el.right.value, int):
+                k, o = base(el.left)
+                return (k, o + (el.right.value if isinstance(el.op, ast.Add) else -el.right.value))
+            if isinstance(el.op, ast.Add) and isinstance(el.left, ast.Constant) and isinstance(el.left.value, int):
+                k, o = base(el.right)
+                return (k, o + el.left.value)
+        return base(el)
 
     def _component(self, el, k):
         """`X[k]`, `X[k] - 1`, `X[k] + 1` -> offset of component k"""
@@ -644,6 +815,15 @@ def generate(repo):
 
     ftm, _ = load(repo, 'prysm/fttools.py')
     rdm, _ = load(repo, 'prysm/_richdata.py')
+    _CASTS.clear()
+    _CASTS.update(_cast_helpers(ifm))
+    _FLOAT_FUNCS.clear()
+    for fn_ in ifm.body:
+        if isinstance(fn_, ast.FunctionDef) and fn_.name not in _CASTS:
+            rets_ = _own_returns(fn_)
+            if rets_ and all(_floating_cast_on_top(r_) for r_ in rets_):
+                _FLOAT_FUNCS.add(fn_.name)
+    _PSD_CACHE.clear()
 
     # ---- psd: what the function RETURNS, by last-definition dataflow (rebinding / reordering / renaming are followed)
     def psd_rots():
@@ -697,6 +877,36 @@ def generate(repo):
             return False          # the modulus / one component of the spectrum is there, but not as a squared modulus
         return None
     g.fact('psdPowerIsSquaredModulus', 'prysm/interferogram.py:psd', psd_sq_modulus)
+
+    def psd_float():
+        """the arithmetic of psd() is carried out in FLOATING POINT whatever the dtype of the map and of a user window (a 0/1
+        boolean aperture, 8-bit weights, raw integer counts are legitimate inputs; products and squares of narrow integer types wrap
+        around): the window whose squares are summed has passed a conversion to a floating type, and so has at least one factor of
+        height * window.  False = recognisably not (the arrays enter the arithmetic as they were handed over)"""
+        a = _psd_analysis(get_def(ifm, 'psd'))
+        raw = a['raw']
+        if raw is None or raw['Ws'] is None:
+            return None
+
+        def from_outside(e):
+            # after looking through conversions: the caller's map, or the window made for it (a user array comes back as it is)
+            t = _strip_casts(e)
+            return _norm(t) == 'height' or (isinstance(t, ast.Call) and _callee(t) == 'make_window')
+        ws, dl, dr = raw['Ws'], raw['D'].left, raw['D'].right
+        if not all(from_outside(x) for x in (ws, dl, dr)):
+            return None
+        s2_ok = _floating_cast_on_top(ws)
+        prod_ok = _floating_cast_on_top(dl) or _floating_cast_on_top(dr)
+        # an accumulator type forced on the sum of squares must be a floating one (`.sum(dtype=np.int64)` truncates)
+        ssa = _SSA()
+        ssa.run(get_def(ifm, 'psd').body)
+        for n in ast.walk(ssa.ret):
+            if isinstance(n, ast.Call) and _sumsq_of(n) is not None:
+                for k in n.keywords:
+                    if k.arg == 'dtype' and ast.unparse(k.value).replace(' ', '').replace('"', "'") not in _FLOATISH:
+                        return False
+        return s2_ok and prod_ok
+    g.fact('psdArithmeticInFloatingPoint', 'prysm/interferogram.py:psd', psd_float)
 
     def psd_window_source():
         a = _psd_analysis(get_def(ifm, 'psd'))
@@ -841,11 +1051,38 @@ def generate(repo):
         wt = ast.unparse(w[0]).replace(' ', '')
         if wt in ('psd.copy()', 'np.copy(psd)', 'np.array(psd)', 'np.array(psd,copy=True)', 'psd*1', 'psd+0', 'psd.astype(float)'):
             return ok
-        if wt == 'psd' and any(isinstance(st, ast.Assign) and isinstance(st.targets[0], ast.Subscript)
-                                and ast.unparse(st.targets[0].value) == 'work' for st in _stmts(fn)):
-            return False          # masked writes go into the caller's array
+        may_alias = wt == 'psd' or (isinstance(w[0], ast.Call) and ast.unparse(w[0].func) in ('np.asarray', 'np.asanyarray', 'numpy.asarray')
+                                      and w[0].args and ast.unparse(w[0].args[0]) == 'psd')
+        if may_alias and any(isinstance(st, ast.Assign) and isinstance(st.targets[0], ast.Subscript)
+                             and ast.unparse(st.targets[0].value) == 'work' for st in _stmts(fn)):
+            return False          # masked writes go into the caller's array (np.asarray returns its argument when no conversion is needed)
         return None
     g.fact('brmsReturnsSqrtOfIntegralOfACopy', 'prysm/interferogram.py:bandlimited_rms', brms_returns_sqrt)
+
+    def brms_float():
+        """bandlimited_rms masks and integrates a FLOATING-POINT array whatever dtype the caller's PSD has (the trapezoid rule adds
+        neighbouring samples: in a boolean / narrow integer type that wraps around)"""
+        fn = get_def(ifm, 'bandlimited_rms')
+        w = find_assigns(fn, 'work')
+        if len(w) != 1:
+            return None
+        wline = [st.lineno for st in _stmts(fn) if isinstance(st, ast.Assign) and st.value is w[0]][0]
+        # the value of `psd` when `work` is made: follow rebindings of the parameter above that line
+        cur = ast.Name(id='psd', ctx=ast.Load())
+        floating = False
+        for st in fn.body:
+            if st.lineno >= wline:
+                break
+            if isinstance(st, ast.Assign) and len(st.targets) == 1 and isinstance(st.targets[0], ast.Name) and st.targets[0].id == 'psd':
+                if _norm(_strip_casts(st.value)) != 'psd':
+                    return None
+                floating = floating or _floating_cast_on_top(st.value)
+        v = w[0]
+        inner = v.func.value if (isinstance(v, ast.Call) and isinstance(v.func, ast.Attribute) and v.func.attr == 'copy' and not v.args) else v
+        if _norm(_strip_casts(inner)) != 'psd':
+            return None
+        return floating or _floating_cast_on_top(inner)
+    g.fact('brmsWorksInFloatingPoint', 'prysm/interferogram.py:bandlimited_rms', brms_float)
 
     def brms_centre():
         fn = get_def(ifm, 'bandlimited_rms')
@@ -939,40 +1176,6 @@ def generate(repo):
     g.item('bandlimited_rms.steps1d', 'prysm/interferogram.py:bandlimited_rms', lambda: get_def(ifm, 'bandlimited_rms'),
            brms_steps_1d, 'def brmsCentre1D (s : Int) : Int := s / 2\ndef brmsStepLag1D : Int := -1')
 
-    # ---- render_synthetic_surface: the RMS rescale
-    def synth():
-        fn = get_def(ifm, 'render_synthetic_surface')
-        st = _stmts(fn)
-        aug = [x for x in st if isinstance(x, ast.AugAssign) and ast.unparse(x.target) == 'z'] + \
-              [x for x in st if isinstance(x, ast.Assign) and ast.unparse(x.targets[0]) == 'z' and isinstance(x.value, ast.BinOp)
-               and 'z' in (ast.unparse(x.value.left), ast.unparse(x.value.right))]
-        if len(aug) != 1:
-            raise Untranslatable('z is not rescaled by exactly one statement')
-        if isinstance(aug[0], ast.AugAssign):
-            upd = ast.BinOp(left=ast.Name(id='z', ctx=ast.Load()), op=aug[0].op, right=aug[0].value)
-        else:
-            upd = aug[0].value
-        # substitute the (single-assignment) scale factor, whatever it is called
-        names = {n.id for n in ast.walk(upd) if isinstance(n, ast.Name)} - {'z', 'rms'}
-        env = {}
-        for nm in names:
-            vs = find_assigns(fn, nm)
-            if len(vs) == 1:
-                env[nm] = vs[0]
-        ssa = _SSA()
-        ssa.env = env
-        full = ssa.subst(upd)
-        # the measured rms: the one remaining name besides z and the requested rms
-        free = {n.id for n in ast.walk(full) if isinstance(n, ast.Name)} - {'z', 'rms'}
-        if len(free) != 1:
-            raise Untranslatable(f'rescale expression {ast.unparse(full)[:50]}')
-        (zr,) = free
-        term = Tr({'rms': 'rho', zr: 'zrms', 'z': 'z'}, mode='num').expr(full)
-        return f'def synthRescale {{K : Type}} [Num K] (rho zrms z : K) : K := {term}'
-    g.item('render_synthetic_surface.rescale', 'prysm/interferogram.py:render_synthetic_surface',
-           lambda: get_def(ifm, 'render_synthetic_surface'), synth,
-           f'def synthRescale {{K : Type}} [Num K] (rho zrms z : K) : K := {M}.rescale rho zrms z')
-
     def _rms_callee_ok(f):
         """does the callee expression denote prysm.util.rms inside render_synthetic_surface (where the parameter `rms`
         shadows the module-level name)?  True / False (recognisably something else) / None"""
@@ -1005,9 +1208,73 @@ def generate(repo):
             return None
         return False
 
+    # ---- render_synthetic_surface: the RMS rescale
+    def _synth_update(fn):
+        """the statement that rescales z, as an expression over z, the requested `rms` and ZRMS__ (= util.rms(z), wherever that
+        call sits: in a local of any name or inline), plus the AST nodes involved -> (expr, scale statement, [rms call nodes])"""
+        st = _stmts(fn)
+        aug = [x for x in st if isinstance(x, ast.AugAssign) and ast.unparse(x.target) == 'z'] + \
+              [x for x in st if isinstance(x, ast.Assign) and ast.unparse(x.targets[0]) == 'z' and isinstance(x.value, ast.BinOp)
+               and 'z' in (ast.unparse(x.value.left), ast.unparse(x.value.right))]
+        if len(aug) != 1:
+            raise Untranslatable('z is not rescaled by exactly one statement')
+        if isinstance(aug[0], ast.AugAssign):
+            upd = ast.BinOp(left=ast.Name(id='z', ctx=ast.Load()), op=aug[0].op, right=aug[0].value)
+        else:
+            upd = aug[0].value
+        # inline the single-assignment locals (scale factor, measured rms, ... whatever they are called), to a fixed point
+        origin = {}              # id(call node in the substituted tree) is not stable: remember the defining statements instead
+        ssa = _SSA()
+        for _round in range(6):
+            names = {n.id for n in ast.walk(upd) if isinstance(n, ast.Name)} - {'z', 'rms'}
+            env = {}
+            for nm in names:
+                defs = [x for x in st if isinstance(x, ast.Assign) and len(x.targets) == 1 and isinstance(x.targets[0], ast.Name)
+                        and x.targets[0].id == nm]
+                if len(defs) == 1:
+                    env[nm] = defs[0].value
+                    origin[nm] = defs[0]
+            if not env:
+                break
+            ssa.env = env
+            upd = ssa.subst(upd)
+        calls = []
+
+        def is_rms_call(e):
+            if isinstance(e, ast.Call) and len(e.args) == 1 and not e.keywords and ast.unparse(e.args[0]) == 'z' \
+                    and _rms_callee_ok(e.func) is True:
+                return e
+            return None
+
+        def mk(node, hit):
+            calls.append(node)
+            return ast.Name(id='ZRMS__', ctx=ast.Load())
+        full = _replace(upd, is_rms_call, mk)
+        # line of the statement in which util.rms(z) is evaluated
+        rms_lines = [x.lineno for x in st if isinstance(x, (ast.Assign, ast.AugAssign))
+                     and any(is_rms_call(n) is not None for n in ast.walk(x))]
+        return full, aug[0], rms_lines
+
+    def synth():
+        fn = get_def(ifm, 'render_synthetic_surface')
+        full, _aug, _lines = _synth_update(fn)
+        free = {n.id for n in ast.walk(full) if isinstance(n, ast.Name)} - {'z', 'rms', 'ZRMS__'}
+        if len(free) == 1 and 'ZRMS__' not in {n.id for n in ast.walk(full) if isinstance(n, ast.Name)}:
+            (zr,) = free            # a measured rms we cannot see through (not util.rms): translated as an opaque quantity
+            env = {'rms': 'rho', zr: 'zrms', 'z': 'z'}
+        elif not free:
+            env = {'rms': 'rho', 'ZRMS__': 'zrms', 'z': 'z'}
+        else:
+            raise Untranslatable(f'rescale expression {ast.unparse(full)[:50]}')
+        term = Tr(env, mode='num').expr(full)
+        return f'def synthRescale {{K : Type}} [Num K] (rho zrms z : K) : K := {term}'
+    g.item('render_synthetic_surface.rescale', 'prysm/interferogram.py:render_synthetic_surface',
+           lambda: get_def(ifm, 'render_synthetic_surface'), synth,
+           f'def synthRescale {{K : Type}} [Num K] (rho zrms z : K) : K := {M}.rescale rho zrms z')
+
     def synth_order():
-        """order of effects in render_synthetic_surface: the mask is written (z[mask == 0] = nan) BEFORE z_rms is taken,
-        z_rms is util.rms of the masked surface, and the surface is scaled after that"""
+        """order of effects in render_synthetic_surface: the mask is written (z[mask == 0] = nan) BEFORE util.rms(z) is evaluated
+        (in a local of any name, or inline in the scaling statement), and the surface is scaled with that value"""
         fn = get_def(ifm, 'render_synthetic_surface')
         st = _stmts(fn)
         mask_forms = ('z[mask==0]=np.nan', 'z[mask==0]=nan', 'z[mask==False]=np.nan', 'z[~mask.astype(bool)]=np.nan',
@@ -1016,30 +1283,20 @@ def generate(repo):
         if any(isinstance(s_, ast.Assign) and ast.unparse(s_).replace(' ', '') in
                ('z[mask!=0]=np.nan', 'z[mask==1]=np.nan', 'z[mask]=np.nan', 'z[mask==True]=np.nan', 'z[mask>0]=np.nan') for s_ in st):
             return False          # the samples INSIDE the mask are invalidated
-        aug = [s_ for s_ in st if isinstance(s_, ast.AugAssign) and ast.unparse(s_.target) == 'z'] + \
-              [s_ for s_ in st if isinstance(s_, ast.Assign) and ast.unparse(s_.targets[0]) == 'z'
-               and isinstance(s_.value, ast.BinOp) and isinstance(s_.value.op, (ast.Mult, ast.Div)) and 'z' in (ast.unparse(s_.value.left), ast.unparse(s_.value.right))]
-        sf = find_assigns(fn, 'scale_factor')
-        if len(mask) != 1 or len(aug) != 1:
+        if len(mask) != 1:
             return None
-        # the name in the denominator of the scale is the measured rms
-        den = None
-        for e in sf + [aug[0].value]:
-            if isinstance(e, ast.BinOp) and isinstance(e.op, ast.Div) and isinstance(e.right, ast.Name):
-                den = e.right.id
-        if den is None:
+        full, aug, rms_lines = _synth_update(fn)
+        names = {n.id for n in ast.walk(full) if isinstance(n, ast.Name)}
+        if 'ZRMS__' not in names:
+            # the surface is not scaled by util.rms(z): recognisably wrong when the denominator is some other norm of z
+            # (np.sqrt((z * z).mean()) ignores which samples are valid, the float parameter `rms` is not a function, ...)
+            bad = any(isinstance(n, ast.Call) and (_callee(n) in ('sqrt', 'std', 'mean', 'nanstd', 'norm')
+                                                    or (len(n.args) == 1 and ast.unparse(n.args[0]) == 'z' and _rms_callee_ok(n.func) is False))
+                      for n in ast.walk(full))
+            return False if bad else None
+        if len(rms_lines) != 1:
             return None
-        zr = [s_ for s_ in st if isinstance(s_, ast.Assign) and ast.unparse(s_.targets[0]) == den]
-        if len(zr) != 1:
-            return None
-        v = zr[0].value
-        if not (isinstance(v, ast.Call) and len(v.args) == 1 and not v.keywords and ast.unparse(v.args[0]) == 'z'):
-            # recognisably not "util.rms of z": e.g. np.sqrt((z * z).mean()) ignores which samples are valid
-            return False if isinstance(v, ast.Call) and _callee(v) in ('sqrt', 'std', 'mean', 'nanstd') else None
-        ok = _rms_callee_ok(v.func)
-        if ok is not True:
-            return ok
-        return mask[0].lineno < zr[0].lineno < aug[0].lineno
+        return mask[0].lineno < rms_lines[0] <= aug.lineno
     g.fact('synthRmsOfMaskedSurfaceThenScale', 'prysm/interferogram.py:render_synthetic_surface', synth_order)
 
     def util_rms():
@@ -1115,11 +1372,21 @@ def generate(repo):
 
     def ifg_psd_dx():
         fn = get_def(ifm, 'Interferogram.psd')
-        rhs = [st.value for st in _stmts(fn) if isinstance(st, ast.Assign) and ast.unparse(st.targets[0]) == 'p.dx']
+        rets = find_returns(fn)
+        if not (len(rets) == 1 and isinstance(rets[0], ast.Name)):
+            raise Untranslatable('Interferogram.psd does not return a local object')
+        obj = rets[0].id
+        rhs = [st.value for st in _stmts(fn) if isinstance(st, ast.Assign) and ast.unparse(st.targets[0]) == f'{obj}.dx']
         if len(rhs) != 1:
-            raise Untranslatable('p.dx assigned more than once / never')
-        env = {'self.dx': 'dx', 'self.data.shape[1]': 'n', 'self.shape[1]': 'n', 'psd_.shape[1]': 'n',
-               'self.data.shape[0]': 'm', 'self.shape[0]': 'm', 'psd_.shape[0]': 'm'}
+            raise Untranslatable(f'{obj}.dx assigned more than once / never')
+        env = {'self.dx': 'dx', 'self.data.shape[1]': 'n', 'self.shape[1]': 'n', 'self.data.shape[0]': 'm', 'self.shape[0]': 'm'}
+        # the spectrum has the shape of the data: whatever local holds it may be asked for its shape as well
+        calls = find_calls(fn, 'psd')
+        for st in _stmts(fn):
+            if isinstance(st, ast.Assign) and calls and st.value is calls[0] and isinstance(st.targets[0], ast.Tuple) \
+                    and len(st.targets[0].elts) == 3 and isinstance(st.targets[0].elts[2], ast.Name):
+                nm = st.targets[0].elts[2].id
+                env.update({f'{nm}.shape[1]': 'n', f'{nm}.shape[0]': 'm'})
         return f'def ifgPsdDx (dx m n : Rat) : Rat := {Tr(env, mode="rat").expr(rhs[0])}'
     g.item('Interferogram.psd.dx', 'prysm/interferogram.py:Interferogram.psd', lambda: get_def(ifm, 'Interferogram.psd'),
            ifg_psd_dx, 'def ifgPsdDx (dx m n : Rat) : Rat := 1 / (n * dx)')
